@@ -69,9 +69,13 @@ func runC12(r *mon.Run, replay string) {
 	workers := r.Pick(8, 10)
 	parallel(n, workers, func(i int) {
 		special := ""
-		// a fixed share of the cases sweeps the block-request split
-		if i%10 == 3 {
+		switch i % 10 {
+		case 3: // the winner's branch length sweeps the 100-block request split
 			special = "long"
+		case 5: // long trunk above the require height, some nodes bootstrapped from a checkpoint
+			special = "checkpoint"
+		case 7: // some nodes serve at most 7 or 1 blocks per request
+			special = "smallbatch"
 		}
 		runCluster(r, uint64(1000+i), special)
 	})
@@ -103,6 +107,20 @@ func genCluster(r *mon.Run, stream uint64, special string) (clusterCase, *chainl
 	default:
 		cc.TrunkLen = []int{1, 2, 5, 12, 30, 60, 130}[rng.IntN(7)]
 	}
+	lens := c12Lens
+	if special == "checkpoint" {
+		if regime == "v1only" {
+			regime = "mix"
+			p = chainlab.RandomParams(regime, rng)
+			cc.Regime, cc.Params = regime, p
+			env = chainlab.NewEnv(p)
+			env.Net.InitialTarget = types.BlockID{itarget}
+			t = chainlab.NewTree(env, rng)
+			R = int(p.Require)
+		}
+		cc.TrunkLen = R + 60 + rng.IntN(40)
+		lens = []int{0, 1, 2, 9, 10, 11, 12}
+	}
 	if cc.TrunkLen < 1 {
 		cc.TrunkLen = 1
 	}
@@ -122,7 +140,7 @@ func genCluster(r *mon.Run, stream uint64, special string) (clusterCase, *chainl
 			depth = cc.TrunkLen
 		}
 		forks[i] = trunk.Ancestor(trunk.Height - uint64(depth))
-		l := c12Lens[rng.IntN(len(c12Lens))]
+		l := lens[rng.IntN(len(lens))]
 		tips[i] = p2plab.GrowMixed(t, forks[i], l, 3, prof)
 	}
 	cc.Winner = rng.IntN(cc.N)
@@ -176,7 +194,7 @@ func genCluster(r *mon.Run, stream uint64, special string) (clusterCase, *chainl
 		cp := trunk.Ancestor(cpH)
 		if cp.Block.V2 != nil && cp.Height > uint64(R) {
 			for i := 0; i < cc.N; i++ {
-				if i != cc.Winner && rng.IntN(3) == 0 {
+				if i != cc.Winner && (rng.IntN(3) == 0 || (special == "checkpoint" && rng.IntN(2) == 0)) {
 					cps[i] = cp
 				}
 			}
@@ -193,7 +211,7 @@ func genCluster(r *mon.Run, stream uint64, special string) (clusterCase, *chainl
 		cc.JitterUS = 500 + rng.IntN(1500)
 	}
 	maxSend := uint64(100)
-	if rng.IntN(5) == 0 {
+	if special == "smallbatch" {
 		maxSend = []uint64{7, 1}[rng.IntN(2)]
 	}
 	perm := rng.Perm(cc.N)
